@@ -152,3 +152,42 @@ func C11_abstract() {
 		sym.Assert(exe.String() == printed, "printed form unchanged")
 	}
 }
+
+// C11_directives: a parsed executable whose selections carry @skip /
+// @include driven by variables, resolved again and again with other truth
+// values (S): a selection left out by one call is back in the next, and the
+// selections written after it are unaffected.
+func C11_directives() {
+	const doc = "query A($h:Boolean=false $i:Boolean=true){g(x:1) a:g(x:2) @skip(if:$h) b:g(x:3) ...F @include(if:$i) c:g(x:4) " +
+		"...on Query @skip(if:$i){e:g(x:8)} o{g(x:5) @skip(if:$h) d:g(x:6)}} fragment F on Query{f:g(x:7) @include(if:$h) k:g(x:9)}"
+	root := ggql.NewRoot(&c11Node{})
+	if err := root.ParseString(c11Schema); err != nil {
+		panic("harness schema rejected: " + err.Error())
+	}
+	exe, err := root.ParseExecutableString(doc)
+	sym.Assert(err == nil, "document accepted")
+	steps := 2
+	if sym.Thorough() {
+		steps = 3
+	}
+	sym.Budget(8_000_000)
+	for k := 0; k < steps; k++ {
+		vars := map[string]interface{}{}
+		if sym.Choice("skip supplied", 2) == 1 {
+			vars["h"] = sym.Bool("h")
+		}
+		if sym.Choice("include supplied", 2) == 1 {
+			vars["i"] = sym.Bool("i")
+		}
+		got, _ := root.ResolveExecutable(exe, "A", vars)
+		fresh, ferr := root.ParseExecutableString(doc)
+		sym.Assert(ferr == nil, "document accepted")
+		vars2 := map[string]interface{}{}
+		for k, v := range vars {
+			vars2[k] = v
+		}
+		want, _ := root.ResolveExecutable(fresh, "A", vars2)
+		sym.Observe("got", got)
+		sym.Assert(sym.DeepEqual(interface{}(got), interface{}(want)), "same response as a freshly parsed copy")
+	}
+}
